@@ -58,3 +58,110 @@ PROPS["C19"] = {
     "assumptions": ["Iterator::nth / DoubleEndedIterator::rev / count behave as on lists", "sequence length below 2^63",
                     "defer: Rust's drop order is assumed (see DESIGN §7 C19); the defer clause is exercised, not proved"],
 }
+
+
+# ---------------------------------------------------------------------------------------------
+U64_MAX = 2 ** 64 - 1
+I64_MIN, I64_MAX = -(2 ** 63), 2 ** 63 - 1
+
+
+def rand_rops(rng, dlen, n):
+    ops = []
+    for _ in range(n):
+        k = rng.random()
+        if k < 0.4:
+            ops.append("r%d" % rng.choice([0, 1, 2, 3, 5, dlen, dlen + 1, 64]))
+        else:
+            w = rng.choice("SCE")
+            if w == "S":
+                o = rng.choice([0, 1, dlen - 1 if dlen else 0, dlen, dlen + 1, dlen + 7, 2 ** 32, I64_MAX, I64_MAX + 1, U64_MAX, rng.randint(0, dlen + 3)])
+            else:
+                o = rng.choice([0, 1, -1, -2, -dlen, -dlen - 1, dlen, dlen + 5, I64_MIN, I64_MAX, -(2 ** 40), rng.randint(-dlen - 3, dlen + 3)])
+            ops.append("s%s%d" % (w, o))
+    return ",".join(ops)
+
+
+def c07_known(l, impl_out, model_out):
+    # KF-C07-stdfs-far-seek: a real File cannot be positioned beyond the kernel's maximum file offset
+    f = l.split("\t")
+    if f[1] != "s":
+        return None
+    for t in f[3].split(","):
+        if t.startswith("s") and abs(int(t[2:])) >= 2 ** 62:
+            return "KF-C07-stdfs-far-seek"
+    return None
+
+
+def c07_streams(tier, rng, ctx):
+    import itertools
+    datas = [b"", b"a", b"hello", b"hello world", bytes(range(256)), "héllo 語".encode(), b"\xff\xfe\x00x"]
+    lines = {"m": [], "c": [], "s": []}
+    # exhaustive-small: all sequences of <= 3 ops over a compact op alphabet on a 5-byte file
+    alpha = ["r0", "r2", "r9", "sS0", "sS3", "sS5", "sS9", "sC-2", "sC2", "sC-9", "sE0", "sE-2", "sE-6", "sE3",
+             "sC%d" % I64_MIN, "sE%d" % I64_MIN, "sC%d" % I64_MAX, "sS%d" % U64_MAX]
+    depth = 3 if tier == "quick" else 4
+    seqs = []
+    for d in range(1, depth + 1):
+        if d <= 3:
+            seqs += [",".join(t) for t in itertools.product(alpha, repeat=d)]
+        else:
+            seqs += [",".join(rng.choice(alpha) for _ in range(d)) for _ in range(40000)]
+    for sq in seqs:
+        for b in "mc":
+            lines[b].append("\t".join(["hread", b, b"hello".hex(), sq]))
+    nrand = 4000 if tier == "quick" else 40000
+    for _ in range(nrand):
+        d = rng.choice(datas)
+        sq = rand_rops(rng, len(d), rng.randint(1, 12))
+        for b in "mcs":
+            lines[b].append("\t".join(["hread", b, d.hex(), sq]))
+    ns = 300 if tier == "quick" else 3000
+    for sq in rng.sample(seqs, ns):
+        lines["s"].append("\t".join(["hread", "s", b"hello".hex(), sq]))
+
+    def as_cursor(ls):
+        return [l.replace("hread\t", "hread_cursor\t", 1) for l in ls]
+    sts = [
+        Stream("handle-mirror", "mirror", lines["m"], exhaustive=True,
+               rule="Memfs read handle vs mirror: every sequence of <= %d ops over an 18-op alphabet (in-range and out-of-range offsets, i64/u64 extremes) + random" % min(depth, 3)),
+        Stream("handle-cursor-spec", "spec", lines["m"], as_cursor(lines["m"]),
+               rule="Memfs read handle vs the Cursor specification"),
+        Stream("std-cursor-vs-spec", "mirror", lines["c"], as_cursor(lines["c"]),
+               rule="a real std::io::Cursor vs the Cursor specification (validates the spec itself)"),
+        Stream("stdfs-handle-spec", "spec", lines["s"], as_cursor(lines["s"]), known=c07_known,
+               rule="Stdfs read handle (a real File in a sandbox) vs the Cursor specification"),
+    ]
+    # write / append handles: chunkings, flush points, drop after any prefix
+    chunks = [b"", b"a", b"bc", "é".encode(), b"\n", b"\xff"]
+    wl = {"m": [], "s": []}
+    toks = ["f"] + ["w" + c.hex() for c in chunks]
+    wd = 4 if tier == "quick" else 5
+    wseqs = []
+    for d in range(0, wd + 1):
+        if 7 ** d <= 3000:
+            wseqs += [",".join(t) for t in itertools.product(toks, repeat=d)]
+        else:
+            wseqs += [",".join(rng.choice(toks) for _ in range(d)) for _ in range(3000)]
+    for sq in wseqs:
+        for mode in "wa":
+            for old in [b"", b"old"]:
+                wl["m"].append("\t".join(["hwrite", "m", mode, old.hex(), "0", sq]))
+    for sq in rng.sample(wseqs, 300):
+        for mode in "wa":
+            wl["m"].append("\t".join(["hwrite", "m", mode, b"old".hex(), "1", sq]))
+            wl["s"].append("\t".join(["hwrite", "s", mode, b"old".hex(), "0", sq]))
+    sts.append(Stream("whandle-memfs", "mirror", wl["m"], exhaustive=True,
+                      rule="Memfs write/append handles: every sequence of <= %d write/flush tokens, dropped at the end of every prefix-closed sequence; content observed after each flush and after drop; plus handles whose file was removed" % wd))
+    sts.append(Stream("whandle-stdfs", "spec", wl["s"], [l.replace("hwrite\ts", "hwrite\tm", 1) for l in wl["s"]],
+                      rule="Stdfs write/append handles vs the same model"))
+    return sts
+
+
+PROPS["C07"] = {
+    "streams": c07_streams,
+    "rule": "exhaustive short op sequences over an alphabet with out-of-range offsets and i64/u64 extremes, random longer ones over several byte strings; "
+            "write handles: all short chunk/flush sequences; distinct = distinct (data, op sequence)",
+    "trusted": ["File/MemFile.v Cursor specification (validated against a real std::io::Cursor by stream std-cursor-vs-spec)",
+                "Rust drop semantics: dropping the handle runs Drop::drop once (sync)"],
+    "assumptions": ["file size below 2^63", "Vec<u8> as io::Write appends", "drop runs at scope end (assumed runtime rule)"],
+}
